@@ -76,9 +76,24 @@ func (ex *Exec) execLoopInvariant(fr *frame, lp *loop, spec *LoopSpec, key strin
 
 	// 3. havoc
 	sH := pre.clone()
+	ownedPhi := map[*ssa.Phi]bool{}
 	for _, p := range phis {
 		ex.objSeq++
-		sH.env[p] = ex.symValue(p.Type(), varNamer(fmt.Sprintf("%s.%s!%d", fnn, p.Comment, ex.objSeq)), false)
+		hv := ex.symValue(p.Type(), varNamer(fmt.Sprintf("%s.%s!%d", fnn, p.Comment, ex.objSeq)), false)
+		// a loop-carried slice that enters the loop in memory this call allocated, and is only ever replaced by
+		// such memory on the back edges (checked below), is still in memory this call allocated: ownership is
+		// the one fact about slices that frame proofs need from an otherwise arbitrary loop state
+		if sl, ok := hv.(*SliceVal); ok && spec.Auto {
+			if iv, ok := s0.env[p].(*SliceVal); ok && ex.sliceOwned(iv) {
+				for _, al := range sl.Alts {
+					if al.O != nil {
+						al.O.fresh = true
+					}
+				}
+				ownedPhi[p] = true
+			}
+		}
+		sH.env[p] = hv
 	}
 	for _, o := range written {
 		sH.heap[o] = ex.havocContent(o, fnn)
@@ -111,6 +126,11 @@ func (ex *Exec) execLoopInvariant(fr *frame, lp *loop, spec *LoopSpec, key strin
 		sB := e.clone()
 		only := func(q *ssa.BasicBlock) bool { return q == p }
 		ex.evalPhis(fr, h, sB, only)
+		for ph := range ownedPhi {
+			if bv, ok := sB.env[ph].(*SliceVal); !ok || !ex.sliceOwned(bv) {
+				ex.sideObls = append(ex.sideObls, SideObl{Name: fmt.Sprintf("%s/owned-slice-stays-owned@b%d/%s", key, p.Index, ph.Comment), Hyp: e.pc, Goal: TFalse, Pos: ex.pos(h.Instrs[0].Pos())})
+			}
+		}
 		ex.sideObls = append(ex.sideObls, SideObl{Name: fmt.Sprintf("%s/preserve@b%d", key, p.Index), Hyp: e.pc, Goal: inv(sB), Pos: ex.pos(h.Instrs[0].Pos())})
 		if decBefore != nil {
 			after := ctxFor(sB).term(spec.Decreases)
@@ -184,4 +204,14 @@ func (ex *Exec) havocContent(o *Obj, tag string) Value {
 		panic(unsupported("loop writes into a map under an invariant"))
 	}
 	return ex.symValue(o.T, nm, false)
+}
+
+// sliceOwned: every backing array the slice may have was allocated by the function under analysis.
+func (ex *Exec) sliceOwned(s *SliceVal) bool {
+	for _, al := range s.Alts {
+		if al.O != nil && !al.O.fresh {
+			return false
+		}
+	}
+	return true
 }
